@@ -13,6 +13,7 @@ CLAIMED = {
  "C09": ("exploration", "Same runs as C07: each body records what it asked for in its latest yield (plain / delay / until / cancel / a yield made in a syscall state) and the resume's reported wake-up time and cancellation must be exactly that, whatever other coroutines on the thread asked for before.", "6 C09"),
  "C25": ("exploration", "Histories of put/get/get_mut/remove over several coroutines and keys with drop-counting values, executed by the coroutine bodies themselves and through the handles, each coroutine dropped at a generated point (never started / suspended mid-body / finished): map model for return values, privacy across coroutines, every value still stored is dropped exactly once with its coroutine.", "6 C25"),
  "C26": ("exploration", "Fresh process per run; 2-4 threads race on their first get_or_default / init_bean+get_bean of the same names, and on Scheduler::new (global queue bean), under seeded schedules with a scheduling point before every atomic and map operation: all addresses for one name are equal and equal to later lookups; work submitted through one concurrently created scheduler is reachable from the other.", "6 C26"),
+ "C10": ("exploration", "Fresh process per run; generated coroutine programs with priorities on one scheduler, generated scheduling passes (budgets, clock advances), cancels of ready/suspended/finished/unknown ids between passes and from a second thread inside a pass, stall faults: every finished coroutine reported exactly once with its own value or panic message; no step before its requested wake-up; a pass with budget to spare resumes everything due at its start; a coroutine cancelled while not running never advances again; everyone else finishes.", "6 C10"),
 }
 NOTE = "Trusted: the vsim engine and shims (sequentially consistent interleavings at shim operations only; no weak-memory effects, no data races inside one uninstrumented operation), crossbeam Injector/SkipMap treated as linearizable, the textual std->vstd rewrite of the generated copy. Sampling, not enumeration."
 props = [json.loads(l) for l in open(os.path.join(V, "properties.jsonl"))]
